@@ -19,7 +19,7 @@ SCRATCH = os.path.join(VERIF, "build", "run")
 
 ASAN_ENV = {
     "ASAN_OPTIONS": "abort_on_error=1:detect_leaks=0:allocator_may_return_null=1:detect_stack_use_after_return=1:"
-                    "handle_abort=1:max_allocation_size_mb=4096:malloc_context_size=8",
+                    "handle_abort=1:quarantine_size_mb=16:max_allocation_size_mb=4096:malloc_context_size=8",
     "UBSAN_OPTIONS": "print_stacktrace=1:halt_on_error=1:abort_on_error=1",
 }
 
